@@ -742,6 +742,15 @@ def generated_cases(tier, rng):
             B["sideSets"] = {k2 + "_b": v for k2, v in B["sideSets"].items()}
         if mode == "clash_sidesets":
             B["nodeSets"] = {k2 + "_b": v for k2, v in B["nodeSets"].items()}
+        if mode in ("clash_all", "clash_sidesets"):
+            # a set that is EMPTY in one mesh and non-empty under the same name in the other (either way round): the union
+            # must keep the members of the non-empty one
+            for j, nm_ in enumerate(sorted(set(A["sideSets"]) & set(B["sideSets"]))):
+                if len(A["sideSets"][nm_]) and len(B["sideSets"][nm_]) and j < 2:
+                    (B if (k // len(modes) + j) % 2 == 0 else A)["sideSets"][nm_] = []
+            for j, nm_ in enumerate(sorted(set(A["nodeSets"]) & set(B["nodeSets"]))):
+                if len(A["nodeSets"][nm_]) and len(B["nodeSets"][nm_]) and j < 1:
+                    (B if (k // len(modes)) % 2 == 1 else A)["nodeSets"][nm_] = []
         post_elev = []
         if (len(tA) + len(tB)) <= 20 and k % 2 == 0:
             sides = list((A.get("sideSets") or {}).values()) + list((B.get("sideSets") or {}).values())
